@@ -14,9 +14,17 @@ pub fn run(input: &[u8], rec: &mut Rec) {
             .stack_size(2 * 1024 * 1024)
             .spawn(move || {
                 crate::util::install_panic_hook();
+                // the configuration reaches the parser by one of the public routes: used directly, through a
+                // clone (what a tool that stores its configuration does), through Module::from_buffer_with_config
                 let cfg = cfg_from_mask(mask);
+                let route = wv_gen::rng::fnv64(&bytes) % 4;
+                let cfg = match route {
+                    1 => cfg.clone(),
+                    2 => cfg.clone().clone(),
+                    _ => cfg,
+                };
                 let t0 = thread_cpu_ns();
-                let r = guarded(|| cfg.parse(&bytes).map(|m| drop(m)));
+                let r = guarded(|| if route == 3 { walrus::Module::from_buffer_with_config(&bytes, &cfg).map(|m| drop(m)) } else { cfg.parse(&bytes).map(|m| drop(m)) });
                 let dt = thread_cpu_ns() - t0;
                 (r, dt)
             })
